@@ -4,7 +4,7 @@ package gensign
 //vsym:entry H03_run_delivery
 //vsym:replay same-harness
 //vsym:expect-cover C03.run.success C03.run.failed-during-signing C03.run.several-requests-per-key
-//vsym:bound H03_run_delivery: gensign.Run over a handler that generates 1..2 agent keys with 1..3 signing requests each; the signer answers every request with 0..2 certificates (with parallel comments) or fails at a symbolic request index (or never; index, certificate counts and the agent's refusal are solver variables); the agent key records every AddCertsToAgent call, which may itself fail for the first key
+//vsym:bound H03_run_delivery: gensign.Run over a handler that generates 1..2 agent keys with 1..3 (thorough 1..4) signing requests each (three keys of four requests did not finish within 20 minutes and are outside the claim); the signer answers every request with 0..2 certificates (with parallel comments) or fails at a symbolic request index (or never; index, certificate counts and the agent's refusal are solver variables); the agent key records every AddCertsToAgent call, which may itself fail for the first key
 //vsym:assume AddCertsToAgent is the only step of a run that removes the earlier generation (shown for the shipped agent key by H03_provision); the handler's Authenticate is C01's subject
 
 import (
@@ -84,13 +84,17 @@ func (h *m03rHandler) Generate(p *csr.ReqParam) ([]csr.AgentKey, error) {
 
 func H03_run_delivery() {
 	sg := &m03rSigner{failAt: -1}
-	nkeys := 1 + vChoose(2, "agent-keys")
+	maxKeys, maxReqs := 2, 3
+	if vThorough() {
+		maxKeys, maxReqs = 2, 4
+	}
+	nkeys := 1 + vChoose(maxKeys, "agent-keys")
 	var keys []*m03rKey
 	h := &m03rHandler{}
 	total := 0
 	for i := 0; i < nkeys; i++ {
 		k := &m03rKey{signer: sg}
-		n := 1 + vChoose(3, "requests-of-key")
+		n := 1 + vChoose(maxReqs, "requests-of-key")
 		for j := 0; j < n; j++ {
 			k.reqs = append(k.reqs, &proto.SSHCertificateSigningRequest{KeyMeta: &proto.KeyMeta{Identifier: string([]byte{'k', byte('0' + i), byte('0' + j)})}})
 			c := vNondetInt("certificates-returned")
